@@ -125,13 +125,15 @@ def addrRule (o : StrOpts) (required : Bool) (v : Val) : R Val := do
   | some n => .ok (.str (Net.printAddr n))
   | none => .error .value
 
+/-- `net.prefixlen < min_prefix_len` or `net.prefixlen > max_prefix_len` (each only when the bound is set) -/
+def prefixBad (minP maxP : Option Int) (p : Nat) : Bool :=
+  (match minP with | some m => decide ((p : Int) < m) | none => false) ||
+  (match maxP with | some m => decide ((p : Int) > m) | none => false)
+
 def netRule (o : StrOpts) (required : Bool) (minP maxP : Option Int) (v : Val) : R Val := do
   let t ← strRule o required v
   match Net.parseNet t with
-  | some (n, p) =>
-    if (match minP with | some m => decide ((p : Int) < m) | none => false) then .error .value
-    else if (match maxP with | some m => decide ((p : Int) > m) | none => false) then .error .value
-    else .ok (.str (Net.printNet n p))
+  | some (n, p) => if prefixBad minP maxP p then .error .value else .ok (.str (Net.printNet n p))
   | none => .error .value
 
 def hostRule (o : StrOpts) (required : Bool) (allowIpv4 : Bool) (v : Val) : R Val := do
@@ -141,20 +143,25 @@ def hostRule (o : StrOpts) (required : Bool) (allowIpv4 : Bool) (v : Val) : R Va
   | none =>
     if Regex.isMatch Generated.hostnameRe t || Regex.isMatch Generated.netbiosRe t then .ok (.str t) else .error .value
 
+/-- the existence test of `FilenameField` on the final path -/
+def fileBad (E : Env) (ex : Exists) (p : Str) : Bool :=
+  match ex with
+  | .any => false
+  | .yes => E.fsKind p == .absent
+  | .no => E.fsKind p != .absent
+  | .dir => E.fsKind p != .dir
+  | .file => E.fsKind p != .file
+
+/-- the path that is tested and returned: resolved against the start directory when relative -/
+def filePath (E : Env) (startdir : Option Str) (t : Str) : Str :=
+  match startdir with
+  | some sd => if !E.isabs t && !sd.isEmpty then E.resolve sd t else t
+  | none => t
+
 def fileRule (E : Env) (o : StrOpts) (required : Bool) (ex : Exists) (startdir : Option Str) (v : Val) : R Val := do
   let t ← strRule o required v
   if t.isEmpty then .ok (.str t) else
-  let p := match startdir with
-    | some sd => if !E.isabs t && !sd.isEmpty then E.resolve sd t else t
-    | none => t
-  let k := E.fsKind p
-  let bad : Bool := match ex with
-    | .any => false
-    | .yes => k == .absent
-    | .no => k != .absent
-    | .dir => k != .dir
-    | .file => k != .file
-  if bad then .error .value else .ok (.str p)
+  if fileBad E ex (filePath E startdir t) then .error .value else .ok (.str (filePath E startdir t))
 
 def urlRule (E : Env) (o : StrOpts) (required : Bool) (v : Val) : R Val := do
   let t ← strRule o required v
@@ -200,6 +207,10 @@ def mapEntries (fk fv : Val → R Val) : List (Val × Val) → R (List (Val × V
 def buildDict (entries : List (Val × Val)) : List (Val × Val) :=
   entries.foldl (fun acc (kv : Val × Val) => dictSet kv.1 kv.2 acc) []
 
+def Kind.isAny : Kind → Bool
+  | .any => true
+  | _ => false
+
 mutual
   /-- `Field.validate`: required/None short-circuit, `_validate`, custom validator -/
   def validate (E : Env) : FieldSpec → Val → R Val
@@ -213,6 +224,14 @@ mutual
           match custom with
           | some name => E.custom name v'
           | none => .ok v'
+  /-- validation by an optional key / value field (absent = `AnyField()`) -/
+  def validateOpt (E : Env) : Option FieldSpec → Val → R Val
+    | none, v => .ok v
+    | some f, v => validate E f v
+  /-- `ListProxy(cfg, field, items)`: every item through the item field; untyped and `AnyField` lists are returned as they are -/
+  def validateItems (E : Env) : Option FieldSpec → List Val → Option (R (List Val))
+    | none, _ => none
+    | some (.mk k r c), xs => if k.isAny then none else some (mapR (fun x => validate E (.mk k r c) x) xs)
   /-- the `_validate` of each field class -/
   def validateKind (E : Env) : Kind → Bool → Val → R Val
     | .any, _, v => .ok v
@@ -232,27 +251,21 @@ mutual
       match v with
       | .list xs =>
         if req && xs.isEmpty then .error .value else
-        match item with
+        match validateItems E item xs with
         | none => .ok (.list xs)
-        | some (.mk .any _ _) => .ok (.list xs)            -- `isinstance(self.field, AnyField)`: returned as is
-        | some f => (mapR (fun x => validate E f x) xs).map .list
+        | some r => r.map .list
       | .tuple xs =>
         if req && xs.isEmpty then .error .value else
-        match item with
+        match validateItems E item xs with
         | none => .ok (.tuple xs)
-        | some (.mk .any _ _) => .ok (.tuple xs)
-        | some f => (mapR (fun x => validate E f x) xs).map .list
+        | some r => r.map .list
       | _ => .error .value
     | .dict key value, req, v =>
       match v with
       | .dict kvs =>
         if req && kvs.isEmpty then .error .value else
-        match key, value with
-        | none, none => .ok (.dict kvs)
-        | k, vf =>
-          let fk : Val → R Val := match k with | some f => fun x => validate E f x | none => fun x => .ok x
-          let fv : Val → R Val := match vf with | some f => fun x => validate E f x | none => fun x => .ok x
-          (mapEntries fk fv kvs).map (fun es => .dict (buildDict es))
+        if key.isNone && value.isNone then .ok (.dict kvs)
+        else (mapEntries (fun x => validateOpt E key x) (fun x => validateOpt E value x) kvs).map (fun es => .dict (buildDict es))
       | _ => .error .value
 end
 
